@@ -252,7 +252,7 @@ def task_norm(lens):
 
 def main():
     chk = Check("C17", __doc__)
-    nmax = 4 if chk.tier == "quick" else 5
+    nmax = 5 if chk.tier == "quick" else 6
     chk.bounds = {"fields": f"0..{nmax} fields, every key a symbolic string of 1 or 2 characters over {KS!r}",
                   "custom order": "0..3 symbolic keys (1-2 chars), case_sensitive in {True, False}"}
     chk.assumptions = ["keys longer than 2 characters / other letters and more fields are outside the claim", "values are distinct tags (values are never inspected by the middlewares)"]
